@@ -407,6 +407,7 @@ def fresh_draw_state(res, rng, tier):
     s = sk()
     t0 = time.time()
     n = 0
+    seen_batches = []  # (label, first batch) of every instance made here: "never recycled" also means that two instances are not handed the same numbers
     for kind, cls, mc, nr in (("log8", s.CountMinLog8, 2**32 - 1, 15), ("log16", s.CountMinLog16, 2**32 - 1, 1023), ("log8", s.CountMinLog8, 10**6, 3)):
         for origin in ("ctor", "load", "merge-into-new"):
             for rep in range(3 if tier == "quick" else 12):
@@ -427,6 +428,8 @@ def fresh_draw_state(res, rng, tier):
                 what = None
                 ptr0 = int(o.rand_ptr)
                 draws = np().array(o.rand_nums, dtype=np().float64).copy()
+                for lab, arr in ((f"{kind} source #{n}", np().array(src.rand_nums, dtype=np().float64).copy()), (f"{kind} from {origin} #{n}", draws)):
+                    seen_batches.append((lab, arr))
                 if ptr0 != 0:
                     what = f"rand_ptr of a new instance is {ptr0}, not 0"
                 elif len(draws) != 2048 or not ((draws >= 0.0) & (draws < 1.0)).all() or len(set(draws.tolist())) < 2000:
@@ -452,7 +455,23 @@ def fresh_draw_state(res, rng, tier):
                     res.oracle_failures.append({"pid": "C06", "what": f"C06 {kind}(max_count={mc}, num_reserved={nr}) instance from {origin}: {what}",
                                                 "kind": kind, "origin": origin})
                 del o, src
-    res.slices["fresh_draw_state"] = {"instances": n, "wall_s": round(time.time() - t0, 1)}
+    # no two instances of this process share draws (2048-value batches of doubles: a single common value has probability ~ 1e-9)
+    index = {}
+    shared = None
+    for lab, arr in seen_batches:
+        if len(arr) == 0:
+            continue
+        key = (float(arr[0]), float(arr[-1]), float(arr[len(arr) // 2]))
+        if key in index and index[key] != lab:
+            shared = (index[key], lab, float(arr[0]))
+            break
+        index[key] = lab
+    res.evaluations += 1
+    res.count("fresh_instances_pairwise", len(seen_batches))
+    if shared:
+        res.oracle_failures.append({"pid": "C06", "what": f"C06 two instances created in one process hold the SAME first batch of draws ({shared[0]} and {shared[1]}, rand_nums[0] = {shared[2]!r}): "
+                                                         f"the second one recycles the numbers the first one consumes", "kind": "shared-batch"})
+    res.slices["fresh_draw_state"] = {"instances": n, "batches_compared": len(seen_batches), "wall_s": round(time.time() - t0, 1)}
 
 
 # ------------------------------------------------------------------------------------ rand_refill
